@@ -161,6 +161,8 @@ class Runner(object):
         self.hist = {}
         self.nontrivial = 0
         self.seen = set()
+        self.root = None
+        self.inputs = {}        # signature -> (api, text, pos, filename) of the smallest failing input
         signal.signal(signal.SIGPROF, _on_alarm)
 
     def h(self, name, key, n=1):
@@ -178,13 +180,95 @@ class Runner(object):
             return [type(exc).__name__, '?', 0, '?']
         return [type(exc).__name__, inner[0], inner[1], inner[2]]
 
-    def record(self, sig, case, detail):
+    def record(self, sig, case, detail, inp=None):
         key = json.dumps(sig)
         self.fail_counts[key] = self.fail_counts.get(key, 0) + 1
-        size = len(case.get('source') or '') + sum(len(v) for v in (case.get('files') or {}).values())
+        size = len(inp[1]) if inp else len(case.get('source') or '')
+        size += sum(len(v) for v in (case.get('files') or {}).values())
         old = self.failures.get(key)
         if old is None or size < old['size']:
             self.failures[key] = {'sig': sig, 'size': size, 'case': case, 'detail': detail[:600]}
+            if inp:
+                self.inputs[key] = inp
+
+    def probe(self, api, project, text, pos, filename):
+        """Signature of the failure of one call (exceptions only), or None."""
+        from supp.linter import lint
+        from supp.assistant import assist, location
+        signal.setitimer(signal.ITIMER_PROF, 10)
+        try:
+            try:
+                if api == 'lint':
+                    lint(project, text, filename)
+                elif api == 'assist':
+                    assist(project, text, tuple(pos), filename)
+                else:
+                    location(project, text, tuple(pos), filename)
+            finally:
+                signal.setitimer(signal.ITIMER_PROF, 0)
+        except CallTimeout:
+            return None
+        except SyntaxError:
+            return None
+        except Exception as e:
+            return self.signature(e)
+        return None
+
+    def shrink_all(self, budget=12.0):
+        """Line-based reduction (ddmin over chunks of lines, the cursor line is kept) of the
+        recorded failing inputs; the failure signature must stay exactly the same."""
+        t_end = time.time() + budget
+        for key, (api, text, pos, filename, root) in list(self.inputs.items()):
+            f = self.failures[key]
+            sig = f['sig']
+            if sig[0] in ('Timeout', 'Malformed') or len(text) < 160 or time.time() > t_end:
+                continue
+            project = new_project(root)
+            if self.probe(api, project, text, pos, filename) != sig:
+                continue
+            lines = text.split('\n')
+            cur = pos[0] - 1 if pos else None
+            n = len(lines)
+            size = max(1, n // 2)
+            t_sig = time.time() + budget / 3.0
+            while size >= 1 and time.time() < min(t_end, t_sig):
+                i = 0
+                changed = False
+                while i < len(lines) and time.time() < min(t_end, t_sig):
+                    j = min(len(lines), i + size)
+                    if cur is not None and i <= cur < j:
+                        # keep the cursor line: try the part before and after it
+                        j = cur
+                        if j <= i:
+                            i = cur + 1
+                            continue
+                    cand = lines[:i] + lines[j:]
+                    cpos = None
+                    if pos:
+                        cpos = (pos[0] - (j - i), pos[1]) if cur >= j else tuple(pos)
+                    if cand and self.probe(api, project, '\n'.join(cand), cpos, filename) == sig:
+                        lines = cand
+                        if pos:
+                            pos = cpos
+                            cur = pos[0] - 1
+                        changed = True
+                    else:
+                        i = j if j > i else i + 1
+                if size == 1 and not changed:
+                    break
+                size = size // 2 if not changed or size > 1 else 1
+                if size == 0:
+                    break
+            new = '\n'.join(lines)
+            if len(new) < len(text):
+                case = dict(f['case'])
+                case['source'] = new
+                case['pos'] = list(pos) if pos else None
+                case['shrunk_from'] = len(text)
+                if case.get('kind') == 'file':
+                    case['mutation'] = str(case.get('mutation')) + '+shrunk'
+                f['case'] = case
+                f['size'] = len(new) + sum(len(v) for v in (case.get('files') or {}).values())
 
     def call(self, api, project, text, pos, filename, case, pinfo):
         """api in lint/assist/location.  pinfo = parse_info of the text the API parses
@@ -195,6 +279,7 @@ class Runner(object):
         self.h('api', api)
         self.h('parse', api + ':' + pinfo[0])
         case = dict(case, api=api, pos=list(pos) if pos else None)
+        inp = (api, text, tuple(pos) if pos else None, filename, self.root)
         signal.setitimer(signal.ITIMER_PROF, CALL_CPU_LIMIT)
         try:
             try:
@@ -215,7 +300,7 @@ class Runner(object):
                 return 'syntaxerror'
             sig = self.signature(e)
             self.record(sig, case, 'SyntaxError although %s: %s' % (
-                'lint must not raise' if api == 'lint' else 'the cursor-marked text parses', e))
+                'lint must not raise' if api == 'lint' else 'the cursor-marked text parses', e), inp)
             return 'error'
         except RecursionError as e:
             if pinfo[0] == 'other':
@@ -225,7 +310,7 @@ class Runner(object):
                 self.h('outcome', api + ':RecursionError(nesting %d)' % pinfo[1])
                 return 'excused'
             sig = self.signature(e)
-            self.record(sig, case, 'RecursionError (ast nesting %r, limit %d)' % (pinfo[1], sys.getrecursionlimit()))
+            self.record(sig, case, 'RecursionError (ast nesting %r, limit %d)' % (pinfo[1], sys.getrecursionlimit()), inp)
             return 'error'
         except Exception as e:
             if pinfo[0] == 'other':
@@ -233,7 +318,7 @@ class Runner(object):
                 self.h('outcome', api + ':out-of-domain')
                 return 'excused'
             sig = self.signature(e)
-            self.record(sig, case, '%s: %s' % (type(e).__name__, str(e)[:300]))
+            self.record(sig, case, '%s: %s' % (type(e).__name__, str(e)[:300]), inp)
             return 'error'
         if api == 'lint':
             bad = check_lint_result(res, pinfo)
@@ -419,6 +504,7 @@ def job_file(R, job, tmp):
         R.h('skipped', 'undecodable')
         return
     rng = random.Random(job['seed'])
+    R.root = tmp
     project = new_project(tmp)
     lines = editor_lines(text)
     base = {'kind': 'file', 'path': path, 'seed': job['seed'], 'npos': job['npos'], 'nmut': job['nmut'], 'extra_pos': job.get('extra_pos', 0)}
@@ -455,6 +541,7 @@ def job_text(R, job, tmp):
             f.write(content)
     filename = os.path.join(root, job.get('filename', 'main.py'))
     text = job['source']
+    R.root = root
     project = new_project(root)
     lines = editor_lines(text)
     spec = job.get('positions', 'all')
@@ -492,6 +579,10 @@ def run_jobs(jobs, repo, progress=None):
                 job_file(R, job, tmp)
             else:
                 job_text(R, job, tmp)
+        if progress:
+            with open(progress, 'w') as f:
+                f.write(str(len(jobs) - 1))
+        R.shrink_all()
     finally:
         import shutil
         shutil.rmtree(tmp, ignore_errors=True)
@@ -1105,6 +1196,8 @@ Definition flow_case (c : fgraph * list nat) : bool :=
   flows_wf (snd c) (fst c) &&
   forallb (fun i => match names (names_fuel (fst c)) true (fst c) [] i with Ok _ => true | _ => false end)
           (seq 0 (List.length (fst c))).
+(* real files: only the hypothesis of C08_names_total (the unmemoised model is exponential in joins) *)
+Definition flow_wf_case (c : fgraph * list nat) : bool := flows_wf (snd c) (fst c).
 (* shape level: lint codes given the parse result, location output given the declarations *)
 Definition code_of (n : nat) : code := match n with 0 => E01 | 1 => E02 | 2 => E42 | 3 => W01 | _ => W02 end.
 Definition lint_case (c : bool * list nat) : bool :=
@@ -1217,7 +1310,7 @@ def _run_chunks(ctx, jobs, chunk, wall):
     import subprocess
     from concurrent.futures import ThreadPoolExecutor
     from common import REPO, PY, NCPU
-    chunks = [jobs[i:i + chunk] for i in range(0, len(jobs), chunk)]
+    chunks = jobs if chunk is None else [jobs[i:i + chunk] for i in range(0, len(jobs), chunk)]
     outdir = os.path.join(ctx.scratch, 'explore')
     os.makedirs(outdir, exist_ok=True)
     base = getattr(ctx, '_c08_chunk', 0)
@@ -1501,7 +1594,10 @@ def run(ctx):
         ctx.histogram('I_real_flow_graph_flows', '%d-%d' % (nflows // 100 * 100, nflows // 100 * 100 + 99))
     if cases:
         bad = ctx.run_cases(['Model.Eval'], I_PRELUDE, 'check_case', cases, shard=120)
-        badf = ctx.run_cases(['Model.Eval'], I_PRELUDE, 'flow_case', fcases + real_flow_cases, shard=60)
+        small = [i for i, m in enumerate(meta) if m['flows'] <= 30]
+        badf = [small[i] for i in ctx.run_cases(['Model.Eval'], I_PRELUDE, 'flow_case', [fcases[i] for i in small], shard=40)]
+        badf += ctx.run_cases(['Model.Eval'], I_PRELUDE, 'flow_wf_case', fcases + real_flow_cases, shard=60)
+        cov['correspondence_flow_graphs_names_evaluated'] = len(small)
         tags = ctx.coq_eval_many([(['Model.Eval'], I_PRELUDE, ['flat_map branch_tag [%s]' % '; '.join(cases[o:o + 120])])
                                   for o in range(0, len(cases), 120)])
         names = ['None', 'ClassObject', 'InstanceValue', 'FuncObject', 'module', 'RuntimeName', 'CompositeValue', 'Err', 'OutOfFuel']
@@ -1588,8 +1684,11 @@ def run(ctx):
         return -len(j['source']) * 20
     file_jobs = sorted([j for j in jobs if j['kind'] == 'file'], key=weight)
     text_jobs = [j for j in jobs if j['kind'] != 'file']
-    res = _run_chunks(ctx, file_jobs, 1 if ctx.thorough() else 2, ctx.pick(600, 2400))
-    res += _run_chunks(ctx, text_jobs, 30, ctx.pick(600, 2400))
+    chunks = [[j] for j in file_jobs[:len(file_jobs) // 3]]
+    rest = file_jobs[len(file_jobs) // 3:]
+    chunks += [rest[i:i + 3] for i in range(0, len(rest), 3)]
+    chunks += [text_jobs[i:i + 30] for i in range(0, len(text_jobs), 30)]
+    res = _run_chunks(ctx, chunks, None, ctx.pick(600, 2400))
     _merge(ctx, res, fails, counts)
     cov['exploration'] = {'files': len(file_jobs), 'generated_programs': nprog, 'special_cursor_cases': len(_special_jobs()),
                           'positions_per_file': npos, 'mutations_per_file': nmut, 'distinct_failure_signatures': len(fails),
@@ -1626,7 +1725,7 @@ def replay(ctx, obj):
                    'extra_pos': case.get('extra_pos', 0)}
         else:
             job = {'kind': 'text', 'source': case['source'], 'files': case.get('files') or {},
-                   'filename': os.path.basename(case['path']) if case.get('kind') == 'file' else case.get('filename', 'main.py'),
+                   'filename': case['path'] if case.get('kind') == 'file' else case.get('filename', 'main.py'),
                    'positions': [case['pos']] if case.get('pos') else [], 'apis': [case['api']] if case.get('api') in ('assist', 'location') else None,
                    'lint': case.get('api') == 'lint' or not case.get('pos')}
         res = run_jobs([job], REPO)
